@@ -121,7 +121,8 @@ fn c29_number_ceil() {
     let x: f64 = kani::any();
     kani::assume(x.is_finite());
     let r = f64::from(num(x).ceil());
-    assert!(is_int(r) && r >= x && r - x < 1.0, "ceil: least integer >= x");
+    // (r - 1 < x, not r - x < 1: the latter rounds to 1 for tiny positive x)
+    assert!(is_int(r) && r >= x && (r == x || r - 1.0 < x), "ceil: least integer >= x");
 }
 /// C29: floor gives the greatest integer <= x.
 #[kani::proof]
@@ -129,7 +130,7 @@ fn c29_number_floor() {
     let x: f64 = kani::any();
     kani::assume(x.is_finite());
     let r = f64::from(num(x).floor());
-    assert!(is_int(r) && r <= x && x - r < 1.0, "floor: greatest integer <= x");
+    assert!(is_int(r) && r <= x && (r == x || r + 1.0 > x), "floor: greatest integer <= x");
 }
 /// C29: round gives the nearest integer, halves away from zero.
 #[kani::proof]
